@@ -233,8 +233,8 @@ def pixelAt {β : Type} (buf : List β) (w : Nat) (px py : Nat) : Option β := b
 /-- Compare the implementation's buffers with the model's on pixels that are not masked.
 Returns (first mismatch message, number of masked pixels, number compared). -/
 def compareBuffers (s : Scene) (io : ImplOut) (t : Target Rat Rat)
-    (masked : Nat → Nat → Bool) : Option String × Nat × Nat :=
-  let tolC := attrRange s / 200 + attrScale s / 10000
+    (masked : Nat → Nat → Bool) (depthRel : Rat := 1/500) (colDiv : Rat := 200) : Option String × Nat × Nat :=
+  let tolC := attrRange s / colDiv + attrScale s / 10000
   (List.range s.h).foldl (fun (acc : Option String × Nat × Nat) py =>
     (List.range s.w).foldl (fun (acc : Option String × Nat × Nat) px =>
       if masked px py then (acc.1, acc.2.1 + 1, acc.2.2)
@@ -255,7 +255,7 @@ def compareBuffers (s : Scene) (io : ImplOut) (t : Target Rat Rat)
             let iz := (pixelAt idp s.w px py).getD 0
             match F32.toRat? iz with
             | none => some s!"pixel ({px},{py}): non-finite depth"
-            | some v => if ratAbs (v - mz) ≤ ratAbs mz / 500 + 1/1000000 then none
+            | some v => if ratAbs (v - mz) ≤ ratAbs mz * depthRel + 1/1000000 then none
                         else some s!"pixel ({px},{py}): depth {ratApprox v}, model {ratApprox mz}"
           | none, none => none
           | _, _ => some "depth buffer presence differs"
